@@ -437,3 +437,4 @@ def run(ctx, prog, res):
     import c02_arms
     c02_arms.run(ctx, prog, res, thorough=(ctx.tier == "thorough"))
     c02_arms.run_years(ctx, prog, res, thorough=(ctx.tier == "thorough"))
+    c02_arms.run_weeks(ctx, prog, res, thorough=(ctx.tier == "thorough"))
